@@ -60,8 +60,8 @@ FAMILIES = [('standard', 'g', 'tests/examples/example1.txt'), ('add-ons', 'g', '
             ('HIP-RA-X', 'hip', 'tests/hip_ra_x_tests/examples/HIP-RA-X_example1.txt')]
 
 
-def key_of(layer, tag, cls, name):
-    return f'{layer}:{tag}:{cls}:{name}'
+def key_of(layer, tag, cls, name, alias=None):
+    return f'{layer}:{tag}:{cls}:{name}' + (f':as:{alias}' if alias else '')
 
 
 def kernel(ctx, part, fn, cases):
@@ -75,7 +75,7 @@ def judge(ctx, layer, cases, compare_model):
     """Property verdict (spec_ok on the implementation's outcome) and, for the reader layer, model = implementation; both in Coq."""
     both = 'fun t c => rcase_agrees t c && rcase_spec t c' if compare_model else 'rcase_spec'
     bad = kernel(ctx, layer + '-verdict', f'({both})', cases)
-    ctx.count(layer, evaluations=len(cases), nontrivial_keys=[(c['cls'], c['name'], c['tag'], c['s']) for c in cases],
+    ctx.count(layer, evaluations=len(cases), nontrivial_keys=[(c.get('family'), c['cls'], c['name'], c.get('alias'), c['tag'], c['s']) for c in cases],
               probes={t: sum(1 for c in cases if c['tag'] == t) for t in sorted({c['tag'] for c in cases})},
               outcomes={k: sum(1 for c in cases if c['obs']['o'][0] == k) for k in 'AURC'})
     for c in cases[:2]:
@@ -85,10 +85,11 @@ def judge(ctx, layer, cases, compare_model):
     sub = [cases[k] for k in bad]
     spec_bad = set(kernel(ctx, layer + '-spec', 'rcase_spec', sub)) if compare_model else set(range(len(sub)))
     for j, c in enumerate(sub):
-        inp = {k: c[k] for k in ('layer', 'family', 'cls', 'name', 'tag', 's') if k in c}
+        inp = {k: c[k] for k in ('layer', 'family', 'cls', 'name', 'tag', 's', 'alias', 'base') if c.get(k)}
         if j in spec_bad:
-            ctx.violate('property', key_of(layer, c['tag'], c['cls'], c['name']),
-                        f'{c["cls"]}.{c["name"]} = {c["s"]!r} ({c["tag"]}, {layer} level'
+            ctx.violate('property', key_of(layer, c['tag'], c['cls'], c['name'], c.get('alias')),
+                        f'{c["cls"]}.{c["name"]}' + (f' written under its deprecated name {c["alias"]!r}' if c.get('alias') else '')
+                        + f' = {c["s"]!r} ({c["tag"]}, {layer} level'
                         + (f', family {c["family"]}' if c.get('family') else '') + f'): {rp.show(c["obs"])}',
                         inp=inp, expected=expected_text(c), observed=rp.show(c['obs']))
         else:
@@ -116,6 +117,16 @@ def numeric_params(ctx):
             r = rows[idx[(cls, name)]]
             if r['kind'] in ('KFloat', 'KInt'):
                 yield cls, o, name, p, idx[(cls, name)], r
+
+
+def alias_list(ctx):
+    """[(package, class object, alias key, target Name)] for the deprecated names the read_parameters methods look up"""
+    if not hasattr(ctx, '_c07_alias'):
+        found = rp.aliases(live(ctx)[0])
+        ctx._c07_alias = [a for a in found if a[3]]
+        ctx.note('deprecated input names found in read_parameters: '
+                 + str(sorted({(c.__name__, a, t) for _, c, a, t in found})))
+    return ctx._c07_alias
 
 
 def mk(layer, cls, name, i, tag, s, v, obs, **kw):
@@ -156,29 +167,52 @@ def module_layer(ctx):
         for tag, s, v in rp.probes(r, ctx.rng, extra=ctx.n(0, 3)):
             if tag in LAYER_TAGS or not ctx.quick and tag in ('inside', 'far-below'):   # 'N.0' / sentinels: reader level only
                 cases.append(mk('module', cls, name, i, tag, s, v, rp.observe_module(*pkgs[cls], model, name, s)))
+    rows, idx = live(ctx)[2], live(ctx)[3]
+    for pkg, c, alias, target in alias_list(ctx):      # same accept / reject behaviour under a deprecated name
+        i = idx[(c.__name__, target)]
+        for tag, s, v in rp.probes(rows[i], ctx.rng, extra=ctx.n(1, 4)):
+            if not tag.startswith('sentinel') and tag != 'float-form':
+                cases.append(mk('module', c.__name__, target, i, tag, s, v, rp.observe_module(pkg, c, model, target, s, key=alias), alias=alias))
     judge(ctx, 'module', cases, compare_model=False)
 
 
+# plant type / end-use combinations that gate special-case code in SurfacePlant.read_parameters and Model.read_parameters
+# (flash plants fix the injection pressure and switch pumping off, heat end-use forces an industrial plant, ...)
+GATES = [(1, 1), (1, 2), (1, 3), (1, 4), (31, 3), (32, 4), (41, 3), (42, 1), (51, 4), (52, 2), (2, 9)]
+GATE_PARTS = ('wellbores', 'surfaceplant')
+
+
+def families(ctx=None):
+    """[(family, kind, base input text, restrict to these Model parts or None)]"""
+    out = [(fam, kind, (fw.REPO / rel).read_text(), None) for fam, kind, rel in FAMILIES]
+    std = (fw.REPO / FAMILIES[0][2]).read_text().rstrip('\n')
+    out += [(f'enduse{eu}-plant{pt}', 'g', std + f'\nEnd-Use Option, {eu}\nPower Plant Type, {pt}\n', GATE_PARTS) for eu, pt in GATES]
+    return out
+
+
 def family_jobs(ctx):
-    """(family, kind, base text, class, name, row index, probe) for the parameters of the modules each family activates"""
+    """(family, kind, base text, class, name, row index, probe) for the parameters of the modules each family activates.
+    prio jobs (always run): the documented bounds of every parameter in every family, the gating families, deprecated names."""
     if hasattr(ctx, '_c07_jobs'):
         return list(ctx._c07_jobs)
     rows, idx = live(ctx)[2], live(ctx)[3]
+    alias = {(c.__name__, t): a for _, c, a, t in alias_list(ctx)}
     jobs = []
-    for fam, kind, rel in FAMILIES:
-        base = (fw.REPO / rel).read_text()
-        active = active_classes(kind, base, ctx)
-        for cls in active:
+    for fam, kind, base, parts in families():
+        for cls in active_classes(kind, base, ctx, parts):
             for r in rows:
                 if r['cls'] == cls and r['kind'] in ('KFloat', 'KInt'):
+                    job = dict(family=fam, kind=kind, base=base, cls=cls, name=r['name'], i=idx[(cls, r['name'])])
                     for tag, s, v in rp.probes(r, ctx.rng):
-                        if tag in LAYER_TAGS:
-                            jobs.append(dict(family=fam, kind=kind, base=base, cls=cls, name=r['name'], i=idx[(cls, r['name'])], tag=tag, s=s, v=v))
+                        if tag in LAYER_TAGS and (parts is None or tag in ('min', 'max')):
+                            jobs.append(dict(job, tag=tag, s=s, v=v, prio=tag in ('min', 'max')))
+                        if (cls, r['name']) in alias and parts is None and (tag in LAYER_TAGS or tag == 'inside'):
+                            jobs.append(dict(job, tag=tag, s=s, v=v, prio=True, alias=alias[(cls, r['name'])]))
     ctx._c07_jobs = jobs
     return list(jobs)
 
 
-def active_classes(kind, base, ctx):
+def active_classes(kind, base, ctx, parts=None):
     import contextlib, io, os, sys
     if kind == 'hip':
         return ['HIP_RA_X']
@@ -195,7 +229,7 @@ def active_classes(kind, base, ctx):
     finally:
         os.chdir(stash[0])
         sys.argv = stash[1]
-    return [type(getattr(m, a)).__name__ for a in rp.MODEL_PARTS if getattr(m, a, None) is not None and getattr(getattr(m, a), 'ParameterDict', None)]
+    return [type(getattr(m, a)).__name__ for a in (parts or rp.MODEL_PARTS) if getattr(m, a, None) is not None and getattr(getattr(m, a), 'ParameterDict', None)]
 
 
 def pool_map(ctx, fn, jobs):
@@ -205,45 +239,53 @@ def pool_map(ctx, fn, jobs):
         return list(ex.map(fn, jobs, chunksize=max(1, len(jobs) // 64)))
 
 
+def job_tuple(ctx, j):
+    return (j['kind'], j['base'], j['name'], j['s'], str(ctx.scratch), j.get('alias'))
+
+
 def family_layer(ctx):
     jobs = family_jobs(ctx)
-    if ctx.quick:                       # quick: a seeded sample, every family and every probe tag represented
-        ctx.rng.shuffle(jobs)
-        jobs = sorted(jobs[:ctx.n(1200, 0)], key=lambda j: (j['family'], j['cls'], j['name'], j['tag'], j['s']))
-    res = pool_map(ctx, rp.family_read, [(j['kind'], j['base'], j['name'], j['s'], str(ctx.scratch)) for j in jobs])
+    if ctx.quick:                       # quick: every prio job + a seeded sample of the rest
+        rest = [j for j in jobs if not j['prio']]
+        ctx.rng.shuffle(rest)
+        jobs = [j for j in jobs if j['prio']] + rest[:600]
+        jobs.sort(key=lambda j: (j['family'], j['cls'], j['name'], j['tag'], j['s'], j.get('alias') or ''))
+    res = pool_map(ctx, rp.family_read, [job_tuple(ctx, j) for j in jobs])
     rows, idx = live(ctx)[2], live(ctx)[3]
     cases, later = [], 0
     for j, (cls, obs) in zip(jobs, res):
         cls = cls if (cls, j['name']) in idx else j['cls']
-        c = mk('family', cls, j['name'], idx[(cls, j['name'])], j['tag'], j['s'], j['v'], obs, family=j['family'])
-        if obs['o'][0] == 'C' and j['tag'] in ('min', 'max'):
+        c = mk('family', cls, j['name'], idx[(cls, j['name'])], j['tag'], j['s'], j['v'], obs, family=j['family'], alias=j.get('alias'))
+        if obs['o'][0] == 'C' and j['tag'] in ('min', 'max', 'inside'):
             later += 1                  # a documented bound that another, later test of the family refuses: not C07
             continue
         cases.append(c)
-    ctx.count('family', later_rejections_not_C07=later, families={f: sum(1 for c in cases if c['family'] == f) for f, _, _ in FAMILIES})
+    ctx.count('family', later_rejections_not_C07=later, families={f[0]: sum(1 for c in cases if c['family'] == f[0]) for f in families()})
     judge(ctx, 'family', cases, compare_model=False)
 
 
 def client_layer(ctx):
     """through the public clients: an out-of-range value gives RuntimeError naming the parameter and no result file"""
-    jobs = [j for j in family_jobs(ctx) if j['tag'] in ('below-min', 'above-max', 'non-member', 'far-above')]
+    slow = ('SBT', 'SUTRA', 'AGS')      # whole runs of these take 5-20 s each if a rejection is ever missed: read-level only
+    jobs = [j for j in family_jobs(ctx) if j['tag'] in ('below-min', 'above-max', 'non-member', 'far-above') and j['family'] not in slow]
     ctx.rng.shuffle(jobs)
     picked, seen = [], {}
     for j in jobs:
         k = (j['family'], j['tag'])
-        if seen.get(k, 0) < ctx.n(2, 12):
+        if j.get('alias') or seen.get(k, 0) < ctx.n(2, 12):        # deprecated names: always
             seen[k] = seen.get(k, 0) + 1
             picked.append(j)
-    picked.sort(key=lambda j: (j['family'], j['cls'], j['name'], j['tag'], j['s']))
-    res = pool_map(ctx, rp.client_run, [(j['kind'], j['base'], j['name'], j['s'], str(ctx.scratch)) for j in picked])
+    picked.sort(key=lambda j: (j['family'], j['cls'], j['name'], j['tag'], j['s'], j.get('alias') or ''))
+    res = pool_map(ctx, rp.client_run, [job_tuple(ctx, j) for j in picked])
     ctx.count('client', evaluations=len(picked), nontrivial_keys=[(j['family'], j['name'], j['tag']) for j in picked])
     for j, r in zip(picked, res):
         named = r['error'] is not None and f'for {j["name"]} outside of valid range' in r['error']
         if not (named and not r['result_file']):
-            ctx.violate('property', key_of('client', j['tag'], j['cls'], j['name']),
-                        f'client run of family {j["family"]} with {j["name"]} = {j["s"]!r} ({j["tag"]}): error={r["error"]!r}, '
+            ctx.violate('property', key_of('client', j['tag'], j['cls'], j['name'], j.get('alias')),
+                        f'client run of family {j["family"]} with {j.get("alias") or j["name"]} = {j["s"]!r} ({j["tag"]}): error={r["error"]!r}, '
                         f'result file written={r["result_file"]}',
-                        inp={'layer': 'client', 'family': j['family'], 'cls': j['cls'], 'name': j['name'], 'tag': j['tag'], 's': j['s']},
+                        inp={'layer': 'client', 'family': j['family'], 'cls': j['cls'], 'name': j['name'], 'tag': j['tag'], 's': j['s'],
+                             'alias': j.get('alias')},
                         expected='RuntimeError naming the parameter, no result file', observed=r)
 
 
@@ -310,11 +352,14 @@ def replay(ctx, data):
         return 1 if fails else 0
     s, v = inp['s'], F(float(inp['s']))
     pkgs = {c.__name__: (pkg, c) for pkg, c in paramtable.module_classes()}
+    alias = inp.get('alias')
     obs = {'reader': rp.observe_reader(dict(srcs)[k[0]].ParameterDict[k[1]], k[1], s, model),
-           'module': rp.observe_module(*pkgs[k[0]], model, k[1], s)}
-    fam = next((f for f in FAMILIES if f[0] == inp.get('family')), None)
+           'module': rp.observe_module(*pkgs[k[0]], model, k[1], s, key=alias)}
+    if alias:
+        print(f'(written under the deprecated input name {alias!r}; the reader line is the current name, for comparison)')
+    fam = next((f for f in families() if f[0] == inp.get('family')), None)
     if fam:
-        job = (fam[1], (fw.REPO / fam[2]).read_text(), k[1], s, str(ctx.scratch))
+        job = (fam[1], fam[2], k[1], s, str(ctx.scratch), alias)
         obs['family'] = rp.family_read(job)[1]
         if inp.get('layer') == 'client':
             print('client:', rp.client_run(job))
